@@ -1,6 +1,7 @@
 package kdcproxy
 
 import (
+	"encoding/binary"
 	"fmt"
 	krbconfig "github.com/bolkedebruin/gokrb5/v8/config"
 	"github.com/jcmturner/gofork/encoding/asn1"
@@ -19,8 +20,8 @@ const (
 
 type KdcProxyMsg struct {
 	Message []byte `asn1:"tag:0,explicit"`
-	Realm   string `asn1:"tag:1,optional"`
-	Flags   int    `asn1:"tag:2,optional"`
+	Realm   string `asn1:"tag:1,optional,explicit,generalstring"`
+	Flags   int    `asn1:"tag:2,optional,explicit"`
 }
 
 type Kdc struct {
@@ -207,15 +208,41 @@ func encode(krb5data []byte) (r []byte, err error) {
 }
 
 func awaitReply(conn net.Conn, isUdp bool, reply chan<- []byte) {
-	resp, err := io.ReadAll(conn)
-	if err != nil {
+	if isUdp {
+		// a udp reply is a single datagram without the length prefix, so add it
+		buf := make([]byte, 65536)
+		n, err := conn.Read(buf)
+		if err != nil {
+			log.Printf("error reading from kdc due to %s", err)
+			reply <- nil
+			return
+		}
+		resp := make([]byte, 4+n)
+		binary.BigEndian.PutUint32(resp, uint32(n))
+		copy(resp[4:], buf[:n])
+		reply <- resp
+		return
+	}
+
+	// a tcp reply is prefixed with its length; the kdc may keep the connection open
+	prefix := make([]byte, 4)
+	if _, err := io.ReadFull(conn, prefix); err != nil {
 		log.Printf("error reading from kdc due to %s", err)
 		reply <- nil
 		return
 	}
-	if isUdp {
-		// udp will be missing the length prefix so add it
-		resp = append([]byte{byte(len(resp))}, resp...)
+	length := binary.BigEndian.Uint32(prefix)
+	if length > maxLength {
+		log.Printf("kdc reply of %d bytes is too large", length)
+		reply <- nil
+		return
+	}
+	resp := make([]byte, 4+length)
+	copy(resp, prefix)
+	if _, err := io.ReadFull(conn, resp[4:]); err != nil {
+		log.Printf("error reading from kdc due to %s", err)
+		reply <- nil
+		return
 	}
 	reply <- resp
 }
